@@ -200,8 +200,10 @@ with bwk_logop (top : bool) (l : logop) : bool :=
 with bwk_operand (top : bool) (x : operand) : bool :=
   match x with OpP p => bwk_path top p | OpL l => bwk_logop top l end.
 
-Definition begins_with_key (t : top) : Prop :=
-  match t with TopP p => bwk_path true p = true | TopL l => bwk_logop true l = true end.
+Definition begins_with_key_b (t : top) : bool :=
+  match t with TopP p => bwk_path true p | TopL l => bwk_logop true l end.
+
+Definition begins_with_key (t : top) : Prop := begins_with_key_b t = true.
 
 (** ** the list-walking helpers depend on the evaluator pointwise *)
 
@@ -419,3 +421,898 @@ Proof.
   - destruct t; exact Hb.
   - reflexivity.
 Qed.
+
+(** ** an induction principle for the mutually inductive, list-nested AST
+    (a structurally recursive proof term, checked by the kernel's guard) *)
+Section AstInd.
+Variable Pp : path -> Prop.
+Variable Po : pathop -> Prop.
+Variable Pf : func -> Prop.
+Variable Pa : param -> Prop.
+Variable Pl : logop -> Prop.
+Variable Px : operand -> Prop.
+Hypothesis Hpath : forall inv r isf me ops us, Forall Po ops -> Pp (Path inv r isf me ops us).
+Hypothesis Hident : forall n q us, Po (PIdent n q us).
+Hypothesis Hfilter : forall l us, Pl l -> Po (PFilter l us).
+Hypothesis Hpfunc : forall f, Pf f -> Po (PFunc f).
+Hypothesis Hfunc : forall inv ft ps us, Forall Pa ps -> Pf (Func inv ft ps us).
+Hypothesis Hnum : forall d, Pa (FPNum d).
+Hypothesis Hstr : forall s, Pa (FPStr s).
+Hypothesis Hbool : forall b, Pa (FPBool b).
+Hypothesis Hfppath : forall p, Pp p -> Pa (FPPath p).
+Hypothesis Hfplog : forall l, Pl l -> Pa (FPLog l).
+Hypothesis Hlog : forall inv isf t xs us, Forall Px xs -> Pl (LogOp inv isf t xs us).
+Hypothesis Hopp : forall p, Pp p -> Px (OpP p).
+Hypothesis Hopl : forall l, Pl l -> Px (OpL l).
+
+Fixpoint ast_path (p : path) : Pp p :=
+  match p with
+  | Path inv r isf me ops us =>
+    Hpath inv r isf me ops us
+      ((fix go (ops : list pathop) : Forall Po ops :=
+          match ops with
+          | [] => Forall_nil Po
+          | o :: rest => Forall_cons o (ast_pathop o) (go rest)
+          end) ops)
+  end
+with ast_pathop (o : pathop) : Po o :=
+  match o with
+  | PIdent n q us => Hident n q us
+  | PFilter l us => Hfilter l us (ast_logop l)
+  | PFunc f => Hpfunc f (ast_func f)
+  end
+with ast_func (f : func) : Pf f :=
+  match f with
+  | Func inv ft ps us =>
+    Hfunc inv ft ps us
+      ((fix go (ps : list param) : Forall Pa ps :=
+          match ps with
+          | [] => Forall_nil Pa
+          | a :: rest => Forall_cons a (ast_param a) (go rest)
+          end) ps)
+  end
+with ast_param (a : param) : Pa a :=
+  match a with
+  | FPNum d => Hnum d
+  | FPStr s => Hstr s
+  | FPBool b => Hbool b
+  | FPPath p => Hfppath p (ast_path p)
+  | FPLog l => Hfplog l (ast_logop l)
+  end
+with ast_logop (l : logop) : Pl l :=
+  match l with
+  | LogOp inv isf t xs us =>
+    Hlog inv isf t xs us
+      ((fix go (xs : list operand) : Forall Px xs :=
+          match xs with
+          | [] => Forall_nil Px
+          | x :: rest => Forall_cons x (ast_operand x) (go rest)
+          end) xs)
+  end
+with ast_operand (x : operand) : Px x :=
+  match x with
+  | OpP p => Hopp p (ast_path p)
+  | OpL l => Hopl l (ast_logop l)
+  end.
+
+Lemma ast_ind :
+  (forall p, Pp p) /\ (forall o, Po o) /\ (forall f, Pf f) /\ (forall a, Pa a)
+  /\ (forall l, Pl l) /\ (forall x, Px x).
+Proof.
+  repeat split; [apply ast_path|apply ast_pathop|apply ast_func|apply ast_param|apply ast_logop|apply ast_operand].
+Qed.
+End AstInd.
+
+(** ** the premise read off the flags alone, plus the parser's shape *)
+
+Definition path_is_filter (p : path) : bool := match p with Path _ _ isf _ _ _ => isf end.
+
+(** every path whose IsFilter flag is false — what GetRootFieldsAccessed looks
+    at — begins with a key, recursively *)
+Fixpoint bwf_path (p : path) : bool :=
+  match p with
+  | Path _ _ isf _ ops _ => (isf || key_first ops) && forallb bwf_pathop ops
+  end
+with bwf_pathop (o : pathop) : bool :=
+  match o with
+  | PIdent _ _ _ => true
+  | PFilter l _ => bwf_logop l
+  | PFunc f => bwf_func f
+  end
+with bwf_func (f : func) : bool :=
+  match f with Func _ _ ps _ => forallb bwf_param ps end
+with bwf_param (a : param) : bool :=
+  match a with
+  | FPPath q => bwf_path q
+  | FPLog l => bwf_logop l
+  | FPNum _ | FPStr _ | FPBool _ => true
+  end
+with bwf_logop (l : logop) : bool :=
+  match l with LogOp _ _ _ xs _ => forallb bwf_operand xs end
+with bwf_operand (x : operand) : bool :=
+  match x with OpP p => bwf_path p | OpL l => bwf_logop l end.
+
+Definition begins_with_key_flags (t : top) : bool :=
+  match t with TopP p => bwf_path p | TopL l => bwf_logop l end.
+
+(** the paths evaluated on the root document — the query itself, the operands
+    of a top-level group and of the groups nested directly in it — carry
+    IsFilter = false, as the parser produces them (only the direct operands of
+    a filter `[...]` are parsed with IsFilter = true) *)
+Fixpoint ps_logop (l : logop) : bool :=
+  match l with LogOp _ _ _ xs _ => forallb ps_operand xs end
+with ps_operand (x : operand) : bool :=
+  match x with OpP p => negb (path_is_filter p) | OpL l => ps_logop l end.
+
+Definition parser_shaped (t : top) : bool :=
+  match t with TopP p => negb (path_is_filter p) | TopL l => ps_logop l end.
+
+Lemma forallb_Forall_imp {A} (f g : A -> bool) (xs : list A) :
+  Forall (fun x => f x = true -> g x = true) xs -> forallb f xs = true -> forallb g xs = true.
+Proof.
+  induction 1 as [|x xs Hx Hxs IH]; simpl; [reflexivity|].
+  intros H. apply andb_true_iff in H. destruct H as [H1 H2].
+  rewrite (Hx H1), (IH H2). reflexivity.
+Qed.
+
+Lemma flags_imply :
+  (forall p, bwf_path p = true ->
+     bwk_path false p = true /\ (path_is_filter p = false -> bwk_path true p = true))
+  /\ (forall o, bwf_pathop o = true -> bwk_pathop o = true)
+  /\ (forall f, bwf_func f = true -> bwk_func f = true)
+  /\ (forall a, bwf_param a = true -> bwk_param a = true)
+  /\ (forall l, bwf_logop l = true ->
+        bwk_logop false l = true /\ (ps_logop l = true -> bwk_logop true l = true))
+  /\ (forall x, bwf_operand x = true ->
+        bwk_operand false x = true /\ (ps_operand x = true -> bwk_operand true x = true)).
+Proof.
+  apply ast_ind.
+  - intros inv r isf me ops us Hops Hb. cbn [bwf_path] in Hb.
+    apply andb_true_iff in Hb. destruct Hb as [Hh Hall].
+    pose proof (forallb_Forall_imp _ _ _ Hops Hall) as Hall'.
+    cbn [bwk_path path_is_filter]. rewrite Hall'.
+    split.
+    + destruct r; cbn [orb]; [|reflexivity].
+      destruct isf; cbn [andb orb negb] in *; [reflexivity|]. rewrite Hh. reflexivity.
+    + intros ->. cbn [orb negb andb] in *. rewrite Hh.
+      rewrite orb_true_r. cbn [orb andb]. rewrite andb_false_r. reflexivity.
+  - reflexivity.
+  - intros l us IH Hb. cbn [bwf_pathop] in Hb. cbn [bwk_pathop]. apply IH. exact Hb.
+  - intros f IH Hb. apply IH. exact Hb.
+  - intros inv ft ps us Hps Hb. cbn [bwf_func] in Hb. cbn [bwk_func].
+    exact (forallb_Forall_imp _ _ _ Hps Hb).
+  - reflexivity.
+  - reflexivity.
+  - reflexivity.
+  - intros p IH Hb. cbn [bwk_param]. apply IH. exact Hb.
+  - intros l IH Hb. cbn [bwk_param]. apply IH. exact Hb.
+  - intros inv isf t xs us Hxs Hb. cbn [bwf_logop] in Hb. cbn [bwk_logop ps_logop].
+    split.
+    + apply (forallb_Forall_imp bwf_operand); [|exact Hb].
+      eapply Forall_impl; [|exact Hxs]. intros x Hx Hbx. apply Hx. exact Hbx.
+    + intros Hps.
+      rewrite forallb_forall in Hb, Hps. rewrite Forall_forall in Hxs.
+      apply forallb_forall. intros x Hx.
+      apply (Hxs x Hx (Hb x Hx)). apply Hps. exact Hx.
+  - intros p IH Hb. cbn [bwf_operand] in Hb. cbn [bwk_operand ps_operand].
+    destruct (IH Hb) as [H1 H2]. split; [exact H1|].
+    intros Hn. apply H2. apply negb_true_iff. exact Hn.
+  - intros l IH Hb. cbn [bwf_operand] in Hb. cbn [bwk_operand ps_operand]. apply IH. exact Hb.
+Qed.
+
+Lemma flags_begin_with_key (t : top) :
+  begins_with_key_flags t = true -> parser_shaped t = true -> begins_with_key t.
+Proof.
+  destruct flags_imply as [Hp [_ [_ [_ [Hl _]]]]].
+  destruct t as [p|l]; simpl; intros Hb Hs.
+  - apply (Hp p Hb). apply negb_true_iff. exact Hs.
+  - apply (Hl l Hb). exact Hs.
+Qed.
+
+(** the statement with the premise on the flags and the parser's shape *)
+Corollary C20_root_fields_sound_flags : forall uni eng fuel t d d',
+  begins_with_key_flags t = true -> parser_shaped t = true ->
+  agree (root_fields t) d d' ->
+  eval uni eng fuel (NTop t) d d = eval uni eng fuel (NTop t) d' d'.
+Proof.
+  intros uni eng fuel t d d' Hb Hs Hag.
+  apply C20_root_fields_sound; [apply flags_begin_with_key; assumption|exact Hag].
+Qed.
+
+(** [do_top] is the entry point with its fixed fuel *)
+Corollary C20_root_fields_sound_do_top : forall uni eng t d d',
+  begins_with_key t -> agree (root_fields t) d d' -> do_top uni eng t d = do_top uni eng t d'.
+Proof. intros uni eng t d d' Hb Hag. unfold do_top. apply C20_root_fields_sound; assumption. Qed.
+
+(** ** the connection to documents: entries of a root map under other keys *)
+
+(** the map key [key] is not the one any listed name looks up (key lookup is
+    case-insensitive: strings.EqualFold) *)
+Definition key_irrelevant (L : list str) (key : gv) : Prop :=
+  forall s k, key_string key = Some s -> In k L -> equal_fold s k = false.
+
+Lemma map_lookup_fold_skip (name : str) (kvs1 : list (gv * gv)) key v kvs2 :
+  (forall s, key_string key = Some s -> equal_fold s name = false) ->
+  map_lookup_fold name (kvs1 ++ (key, v) :: kvs2) = map_lookup_fold name (kvs1 ++ kvs2).
+Proof.
+  intros Hk. induction kvs1 as [|[k0 v0] rest IH]; simpl.
+  - destruct (key_string key) as [s|] eqn:E; [|reflexivity].
+    rewrite (Hk s eq_refl). reflexivity.
+  - rewrite IH. reflexivity.
+Qed.
+
+Lemma agree_map (L : list str) kt vt n kvs kt' vt' n' kvs' :
+  (forall k, In k L -> map_lookup_fold k kvs = map_lookup_fold k kvs') ->
+  agree L (VMap kt vt n kvs) (VMap kt' vt' n' kvs').
+Proof.
+  intros H k Hk. unfold do_ident. cbn. rewrite (H k Hk). reflexivity.
+Qed.
+
+(** adding an entry (anywhere in the iteration order; a nil map becomes non-nil) *)
+Lemma agree_map_add (L : list str) kt vt n n' kvs1 kvs2 key v :
+  key_irrelevant L key ->
+  agree L (VMap kt vt n (kvs1 ++ kvs2)) (VMap kt vt n' (kvs1 ++ (key, v) :: kvs2)).
+Proof.
+  intros Hk. apply agree_map. intros k Hin. symmetry. apply map_lookup_fold_skip.
+  intros s Hs. apply (Hk s k Hs Hin).
+Qed.
+
+(** removing an entry *)
+Lemma agree_map_remove (L : list str) kt vt n n' kvs1 kvs2 key v :
+  key_irrelevant L key ->
+  agree L (VMap kt vt n (kvs1 ++ (key, v) :: kvs2)) (VMap kt vt n' (kvs1 ++ kvs2)).
+Proof.
+  intros Hk. apply agree_map. intros k Hin. apply map_lookup_fold_skip.
+  intros s Hs. apply (Hk s k Hs Hin).
+Qed.
+
+(** replacing an entry: its value, or the entry altogether *)
+Lemma agree_map_replace (L : list str) kt vt n n' kvs1 kvs2 key v key' v' :
+  key_irrelevant L key -> key_irrelevant L key' ->
+  agree L (VMap kt vt n (kvs1 ++ (key, v) :: kvs2)) (VMap kt vt n' (kvs1 ++ (key', v') :: kvs2)).
+Proof.
+  intros Hk Hk'. apply agree_map. intros k Hin.
+  rewrite !map_lookup_fold_skip; [reflexivity| |].
+  - intros s Hs. apply (Hk' s k Hs Hin).
+  - intros s Hs. apply (Hk s k Hs Hin).
+Qed.
+
+(** the three together, on the evaluation of a query over a root map *)
+Corollary C20_root_fields_map_entry : forall uni eng fuel t kt vt n kvs1 kvs2 key v key' v',
+  begins_with_key t ->
+  key_irrelevant (root_fields t) key -> key_irrelevant (root_fields t) key' ->
+  let without := VMap kt vt n (kvs1 ++ kvs2) in
+  let with_e := VMap kt vt n (kvs1 ++ (key, v) :: kvs2) in
+  let with_e' := VMap kt vt n (kvs1 ++ (key', v') :: kvs2) in
+  eval uni eng fuel (NTop t) without without = eval uni eng fuel (NTop t) with_e with_e
+  /\ eval uni eng fuel (NTop t) with_e with_e = eval uni eng fuel (NTop t) with_e' with_e'.
+Proof.
+  intros uni eng fuel t kt vt n kvs1 kvs2 key v key' v' Hb Hk Hk'. cbn zeta. split.
+  - apply C20_root_fields_sound; [exact Hb|]. apply agree_map_add. exact Hk.
+  - apply C20_root_fields_sound; [exact Hb|]. apply agree_map_replace; assumption.
+Qed.
+
+(** * (c) AddressedPaths *)
+
+Definition is_prefix (c p : list str) : Prop := exists r, p = c ++ r.
+
+Lemma is_prefix_refl (c : list str) : is_prefix c c.
+Proof. exists []. rewrite app_nil_r. reflexivity. Qed.
+
+Lemma is_prefix_trans (a b c : list str) : is_prefix a b -> is_prefix b c -> is_prefix a c.
+Proof. intros [r ->] [r' ->]. exists (r ++ r'). rewrite app_assoc. reflexivity. Qed.
+
+Lemma is_prefix_app (pre c p : list str) : is_prefix c p -> is_prefix (pre ++ c) (pre ++ p).
+Proof. intros [r ->]. exists r. rewrite app_assoc. reflexivity. Qed.
+
+(** ** the key chains a query navigates, written down independently *)
+
+(** the keys of a path, in order, whatever stands between them *)
+Fixpoint idents_of (ops : list pathop) : list str :=
+  match ops with
+  | [] => []
+  | PIdent name _ _ :: rest => name :: idents_of rest
+  | _ :: rest => idents_of rest
+  end.
+
+Section ChainsInner.
+Variable in_filter : logop -> list (list str).   (* the chains of a filter's predicates *)
+Variable in_func : func -> list (list str).      (* the chains of a function's arguments *)
+(** what the filters and functions of a path add: a filter's chains are
+    prefixed by [pre], the keys seen before the filter (the collection it
+    filters); the chains of function arguments stand for themselves *)
+Fixpoint chains_inner (pre : list str) (ops : list pathop) : list (list str) :=
+  match ops with
+  | [] => []
+  | PIdent name _ _ :: rest => chains_inner (pre ++ [name]) rest
+  | PFilter l _ :: rest => map (fun c => pre ++ c) (in_filter l) ++ chains_inner pre rest
+  | PFunc f :: rest => in_func f ++ chains_inner pre rest
+  end.
+End ChainsInner.
+
+Fixpoint chains_path (p : path) : list (list str) :=
+  match p with
+  | Path _ _ _ _ ops _ => idents_of ops :: chains_inner chains_logop chains_func [] ops
+  end
+with chains_func (f : func) : list (list str) :=
+  match f with Func _ _ ps _ => flat_map chains_param ps end
+with chains_param (a : param) : list (list str) :=
+  match a with
+  | FPPath q => chains_path q
+  | FPLog l => chains_logop l
+  | FPNum _ | FPStr _ | FPBool _ => []
+  end
+with chains_logop (l : logop) : list (list str) :=
+  match l with LogOp _ _ _ xs _ => flat_map chains_operand xs end
+with chains_operand (x : operand) : list (list str) :=
+  match x with OpP p => chains_path p | OpL l => chains_logop l end.
+
+Definition chains (t : top) : list (list str) :=
+  match t with TopP p => chains_path p | TopL l => chains_logop l end.
+
+(** ** the de-duplication pass *)
+
+Lemma strs_eqb_eq (a b : list str) : strs_eqb a b = true <-> a = b.
+Proof.
+  revert b; induction a as [|x a IH]; intros [|y b]; simpl; split; intros H; try congruence; try discriminate.
+  - apply andb_true_iff in H. destruct H as [H1 H2].
+    apply c20_str_eqb_eq in H1. apply IH in H2. congruence.
+  - inversion H; subst. apply andb_true_iff. split; [apply c20_str_eqb_eq|apply IH]; reflexivity.
+Qed.
+
+Lemma slice_contains_in (sl : list (list str)) (val : list str) :
+  slice_contains sl val = true <-> In val sl.
+Proof.
+  unfold slice_contains. rewrite existsb_exists. split.
+  - intros [v [Hv He]]. apply strs_eqb_eq in He. subst. exact Hv.
+  - intros H. exists val. split; [exact H|]. apply strs_eqb_eq. reflexivity.
+Qed.
+
+Lemma spread_slice_prefix (sl ss : list str) : In ss (spread_slice sl) -> is_prefix ss sl.
+Proof.
+  revert ss; induction sl as [|x r IH]; intros ss H; simpl in H; [contradiction|].
+  destruct H as [<-|H].
+  - exists r. reflexivity.
+  - apply in_map_iff in H. destruct H as [ss' [<- Hin]].
+    destruct (IH _ Hin) as [r' ->]. exists r'. reflexivity.
+Qed.
+
+Lemma subset_slice_prefix (slices : list (list str)) (val : list str) :
+  slices_contains_subset_slice slices val = true -> exists s, In s slices /\ is_prefix val s.
+Proof.
+  unfold slices_contains_subset_slice. intros H.
+  apply existsb_exists in H. destruct H as [s [Hs H]].
+  apply existsb_exists in H. destruct H as [ss [Hss He]].
+  apply strs_eqb_eq in He. subst ss.
+  exists s. split; [exact Hs|]. apply spread_slice_prefix. exact Hss.
+Qed.
+
+Definition ap_step (ret : list (list str)) (val : list str) : list (list str) :=
+  if ap_keep ret val then ret ++ [val] else ret.
+
+Lemma ap_dedup_fold (paths : list (list str)) : ap_dedup paths = fold_left ap_step paths [].
+Proof. reflexivity. Qed.
+
+Lemma ap_fold_mono (paths ret : list (list str)) (p : list str) :
+  In p ret -> In p (fold_left ap_step paths ret).
+Proof.
+  revert ret; induction paths as [|val rest IH]; intros ret H; simpl; [exact H|].
+  apply IH. unfold ap_step. destruct (ap_keep ret val); [apply in_or_app; left|]; exact H.
+Qed.
+
+Lemma ap_fold_sub (paths ret : list (list str)) (p : list str) :
+  In p (fold_left ap_step paths ret) -> In p ret \/ (In p paths /\ p <> []).
+Proof.
+  revert ret; induction paths as [|val rest IH]; intros ret H; simpl in *; [left; exact H|].
+  destruct (IH _ H) as [Hr|[Hr Hne]].
+  - unfold ap_step in Hr. destruct (ap_keep ret val) eqn:E; [|left; exact Hr].
+    apply in_app_or in Hr. destruct Hr as [Hr|[<-|[]]]; [left; exact Hr|].
+    right. split; [left; reflexivity|].
+    unfold ap_keep in E. apply andb_true_iff in E. destruct E as [_ E].
+    apply Nat.ltb_lt in E. intros ->. simpl in E. lia.
+  - right. split; [right; exact Hr|exact Hne].
+Qed.
+
+Lemma ap_fold_nodup (paths ret : list (list str)) :
+  NoDup ret -> NoDup (fold_left ap_step paths ret).
+Proof.
+  revert ret; induction paths as [|val rest IH]; intros ret H; simpl; [exact H|].
+  apply IH. unfold ap_step. destruct (ap_keep ret val) eqn:E; [|exact H].
+  unfold ap_keep in E. apply andb_true_iff in E. destruct E as [E _].
+  apply andb_true_iff in E. destruct E as [E _]. apply negb_true_iff in E.
+  assert (Hn : ~ In val ret).
+  { intros Hin. apply slice_contains_in in Hin. congruence. }
+  clear -H Hn. induction ret as [|x ret IHr]; simpl.
+  - constructor; [intros []|constructor].
+  - inversion H; subst. constructor.
+    + intros Hin. apply in_app_or in Hin. destruct Hin as [Hin|[<-|[]]]; [contradiction|].
+      apply Hn. left. reflexivity.
+    + apply IHr; [assumption|]. intros Hin. apply Hn. right. exact Hin.
+Qed.
+
+(** every value that arrives, unless empty, is equal to or a prefix of a kept one *)
+Lemma ap_fold_cover (paths ret : list (list str)) (q : list str) :
+  In q paths -> q <> [] -> exists p, In p (fold_left ap_step paths ret) /\ is_prefix q p.
+Proof.
+  revert ret; induction paths as [|val rest IH]; intros ret Hq Hne; simpl in *; [contradiction|].
+  destruct Hq as [->|Hq]; [|apply IH; assumption].
+  unfold ap_step at 2. destruct (ap_keep ret q) eqn:E.
+  - exists q. split; [|apply is_prefix_refl].
+    apply ap_fold_mono. apply in_or_app. right. left. reflexivity.
+  - unfold ap_keep in E.
+    destruct (slice_contains ret q) eqn:E1.
+    + apply slice_contains_in in E1. exists q. split; [apply ap_fold_mono; exact E1|apply is_prefix_refl].
+    + destruct (slices_contains_subset_slice ret q) eqn:E2.
+      * destruct (subset_slice_prefix _ _ E2) as [s [Hs Hp]].
+        exists s. split; [apply ap_fold_mono; exact Hs|exact Hp].
+      * cbn [negb andb] in E. apply Nat.ltb_ge in E.
+        destruct q; [congruence|simpl in E; lia].
+Qed.
+
+Lemma ap_dedup_sub (paths : list (list str)) (p : list str) :
+  In p (ap_dedup paths) -> In p paths /\ p <> [].
+Proof.
+  rewrite ap_dedup_fold. intros H. destruct (ap_fold_sub _ _ _ H) as [[]|H']. exact H'.
+Qed.
+
+Lemma ap_dedup_nodup (paths : list (list str)) : NoDup (ap_dedup paths).
+Proof. rewrite ap_dedup_fold. apply ap_fold_nodup. constructor. Qed.
+
+(** [A] covers [B]: every non-empty member of B is equal to or a prefix of a member of A *)
+Definition covers (A B : list (list str)) : Prop :=
+  forall c, In c B -> c <> [] -> exists p, In p A /\ is_prefix c p.
+
+Lemma ap_dedup_covers (paths : list (list str)) : covers (ap_dedup paths) paths.
+Proof. intros c Hc Hne. rewrite ap_dedup_fold. apply ap_fold_cover; assumption. Qed.
+
+Lemma covers_trans (A B C : list (list str)) : covers A B -> covers B C -> covers A C.
+Proof.
+  intros HAB HBC c Hc Hne.
+  destruct (HBC c Hc Hne) as [b [Hb Hcb]].
+  assert (Hbne : b <> []).
+  { destruct Hcb as [r ->]. destruct c; [congruence|discriminate]. }
+  destruct (HAB b Hb Hbne) as [a [Ha Hba]].
+  exists a. split; [exact Ha|]. eapply is_prefix_trans; eauto.
+Qed.
+
+Lemma covers_flat_map {X} (f g : X -> list (list str)) (xs : list X) :
+  Forall (fun x => covers (f x) (g x)) xs -> covers (flat_map f xs) (flat_map g xs).
+Proof.
+  intros H c Hc Hne. apply in_flat_map in Hc. destruct Hc as [x [Hx Hc]].
+  rewrite Forall_forall in H. destruct (H x Hx c Hc Hne) as [p [Hp Hcp]].
+  exists p. split; [|exact Hcp]. apply in_flat_map. exists x. split; assumption.
+Qed.
+
+Lemma incl_flat_map {X Y} (f g : X -> list Y) (xs : list X) :
+  Forall (fun x => incl (f x) (g x)) xs -> incl (flat_map f xs) (flat_map g xs).
+Proof.
+  intros H c Hc. apply in_flat_map in Hc. destruct Hc as [x [Hx Hc]].
+  rewrite Forall_forall in H. apply in_flat_map. exists x. split; [exact Hx|]. apply (H x Hx). exact Hc.
+Qed.
+
+(** ** the loop over the operations of a path *)
+
+Lemma ap_ops_in F G (ops : list pathop) : forall pre q,
+  In q (ap_ops F G pre ops) <-> q = pre ++ idents_of ops \/ In q (chains_inner F G pre ops).
+Proof.
+  induction ops as [|[name qm u|l u|f] rest IH]; intros pre q; simpl.
+  - rewrite app_nil_r. intuition.
+  - rewrite IH. rewrite <- app_assoc. simpl. tauto.
+  - rewrite !in_app_iff, IH. tauto.
+  - rewrite !in_app_iff, IH. tauto.
+Qed.
+
+(** what a pathop stands for in the two collections *)
+Definition op_rel (R : list (list str) -> list (list str) -> Prop)
+                  (F F' : logop -> list (list str)) (G G' : func -> list (list str)) (o : pathop) : Prop :=
+  match o with
+  | PIdent _ _ _ => True
+  | PFilter l _ => R (F l) (F' l)
+  | PFunc f => R (G f) (G' f)
+  end.
+
+Lemma chains_inner_incl F F' G G' (ops : list pathop) :
+  Forall (op_rel (@incl (list str)) F F' G G') ops ->
+  forall pre, incl (chains_inner F G pre ops) (chains_inner F' G' pre ops).
+Proof.
+  induction 1 as [|o rest Ho Hrest IH]; intros pre c Hc; simpl in *; [exact Hc|].
+  destruct o as [name qm u|l u|f]; simpl in Ho.
+  - apply IH. exact Hc.
+  - apply in_app_or in Hc. apply in_or_app. destruct Hc as [Hc|Hc]; [left|right; apply IH; exact Hc].
+    apply in_map_iff in Hc. destruct Hc as [c' [<- Hc']].
+    apply in_map_iff. exists c'. split; [reflexivity|apply Ho; exact Hc'].
+  - apply in_app_or in Hc. apply in_or_app. destruct Hc as [Hc|Hc]; [left; apply Ho; exact Hc|right; apply IH; exact Hc].
+Qed.
+
+Lemma ap_ops_covers F F' G G' (ops : list pathop) :
+  Forall (op_rel covers F F' G G') ops ->
+  forall pre, covers (ap_ops F G pre ops) ((pre ++ idents_of ops) :: chains_inner F' G' pre ops).
+Proof.
+  induction 1 as [|o rest Ho Hrest IH]; intros pre c Hc Hne.
+  - simpl in *. destruct Hc as [<-|[]]. rewrite app_nil_r.
+    exists pre. split; [left; reflexivity|apply is_prefix_refl].
+  - destruct o as [name qm u|l u|f]; simpl in Ho.
+    + cbn [ap_ops idents_of chains_inner] in *.
+      apply (IH (pre ++ [name]) c); [|exact Hne].
+      rewrite <- app_assoc. exact Hc.
+    + cbn [ap_ops idents_of chains_inner] in *.
+      assert (Hfin : exists p, In p (map (app pre) (F l) ++ ap_ops F G pre rest) /\ is_prefix pre p).
+      { exists (pre ++ idents_of rest). split.
+        - apply in_or_app. right. apply ap_ops_in. left. reflexivity.
+        - exists (idents_of rest). reflexivity. }
+      destruct Hc as [<-|Hc].
+      * destruct (IH pre (pre ++ idents_of rest) (or_introl eq_refl) Hne) as [p [Hp Hpp]].
+        exists p. split; [apply in_or_app; right; exact Hp|exact Hpp].
+      * apply in_app_or in Hc. destruct Hc as [Hc|Hc].
+        -- apply in_map_iff in Hc. destruct Hc as [c' [<- Hc']].
+           destruct c' as [|s c'].
+           ++ rewrite app_nil_r. exact Hfin.
+           ++ destruct (Ho (s :: c') Hc') as [p' [Hp' Hpp']]; [discriminate|].
+              exists (pre ++ p'). split; [|apply is_prefix_app; exact Hpp'].
+              apply in_or_app. left. apply in_map_iff. exists p'. split; [reflexivity|exact Hp'].
+        -- destruct (IH pre c (or_intror Hc) Hne) as [p [Hp Hpp]].
+           exists p. split; [apply in_or_app; right; exact Hp|exact Hpp].
+    + cbn [ap_ops idents_of chains_inner] in *.
+      destruct Hc as [<-|Hc].
+      * destruct (IH pre (pre ++ idents_of rest) (or_introl eq_refl) Hne) as [p [Hp Hpp]].
+        exists p. split; [apply in_or_app; right; exact Hp|exact Hpp].
+      * apply in_app_or in Hc. destruct Hc as [Hc|Hc].
+        -- destruct (Ho c Hc Hne) as [p [Hp Hpp]].
+           exists p. split; [apply in_or_app; left; exact Hp|exact Hpp].
+        -- destruct (IH pre c (or_intror Hc) Hne) as [p [Hp Hpp]].
+           exists p. split; [apply in_or_app; right; exact Hp|exact Hpp].
+Qed.
+
+(** ** every returned path is a chain *)
+
+Lemma addressed_incl_chains :
+  (forall p, incl (ap_path p) (chains_path p))
+  /\ (forall o, op_rel (@incl (list str)) ap_filter chains_logop ap_func chains_func o)
+  /\ (forall f, incl (ap_func f) (chains_func f))
+  /\ (forall a, incl (ap_param a) (chains_param a))
+  /\ (forall l, incl (ap_filter l) (chains_logop l) /\ incl (ap_logop l) (chains_logop l))
+  /\ (forall x, incl (ap_operand x) (chains_operand x)).
+Proof.
+  apply ast_ind.
+  - intros inv r isf me ops us Hops p Hp. cbn [ap_path] in Hp. cbn [chains_path].
+    destruct ops as [|o rest]; [contradiction|].
+    apply ap_dedup_sub in Hp. destruct Hp as [Hp _].
+    apply ap_ops_in in Hp. destruct Hp as [->|Hp]; [left; reflexivity|right].
+    apply (chains_inner_incl _ _ _ _ _ Hops). exact Hp.
+  - intros n q us. exact I.
+  - intros l us [H _]. exact H.
+  - intros f H. exact H.
+  - intros inv ft ps us Hps. cbn [ap_func chains_func]. apply incl_flat_map. exact Hps.
+  - intros d c [].
+  - intros s c [].
+  - intros b c [].
+  - intros p H. exact H.
+  - intros l [_ H]. exact H.
+  - intros inv isf t xs us Hxs. cbn [ap_filter ap_logop chains_logop].
+    pose proof (incl_flat_map _ _ _ Hxs) as Hi. split; [exact Hi|].
+    intros c Hc. apply ap_dedup_sub in Hc. apply Hi. apply Hc.
+  - intros p H. exact H.
+  - intros l [_ H]. exact H.
+Qed.
+
+(** ** every chain is equal to or a prefix of a returned path *)
+
+Lemma addressed_covers_chains :
+  (forall p, covers (ap_path p) (chains_path p))
+  /\ (forall o, op_rel covers ap_filter chains_logop ap_func chains_func o)
+  /\ (forall f, covers (ap_func f) (chains_func f))
+  /\ (forall a, covers (ap_param a) (chains_param a))
+  /\ (forall l, covers (ap_filter l) (chains_logop l) /\ covers (ap_logop l) (chains_logop l))
+  /\ (forall x, covers (ap_operand x) (chains_operand x)).
+Proof.
+  apply ast_ind.
+  - intros inv r isf me ops us Hops. cbn [ap_path chains_path].
+    destruct ops as [|o rest].
+    + intros c [<-|[]] Hne. exfalso. apply Hne. reflexivity.
+    + eapply covers_trans; [apply ap_dedup_covers|].
+      apply (ap_ops_covers _ _ _ _ _ Hops []).
+  - intros n q us. exact I.
+  - intros l us [H _]. exact H.
+  - intros f H. exact H.
+  - intros inv ft ps us Hps. cbn [ap_func chains_func]. apply covers_flat_map. exact Hps.
+  - intros d c [].
+  - intros s c [].
+  - intros b c [].
+  - intros p H. exact H.
+  - intros l [_ H]. exact H.
+  - intros inv isf t xs us Hxs. cbn [ap_filter ap_logop chains_logop].
+    pose proof (covers_flat_map _ _ _ Hxs) as Hc. split; [exact Hc|].
+    eapply covers_trans; [apply ap_dedup_covers|exact Hc].
+  - intros p H. exact H.
+  - intros l [_ H]. exact H.
+Qed.
+
+Theorem C20_addressed_cover : forall t c,
+  In c (chains t) -> c <> [] -> exists p, In p (addressed_paths t) /\ is_prefix c p.
+Proof.
+  destruct addressed_covers_chains as [Hp [_ [_ [_ [Hl _]]]]].
+  intros [p|l] c Hc Hne; simpl in *; [apply (Hp p c Hc Hne)|apply (proj2 (Hl l) c Hc Hne)].
+Qed.
+
+Theorem C20_addressed_exact : forall t p, In p (addressed_paths t) -> In p (chains t).
+Proof.
+  destruct addressed_incl_chains as [Hp [_ [_ [_ [Hl _]]]]].
+  intros [q|l] p H; simpl in *; [apply (Hp q p H)|apply (proj2 (Hl l) p H)].
+Qed.
+
+Theorem C20_addressed_nodup : forall t, NoDup (addressed_paths t).
+Proof.
+  intros [p|l]; simpl.
+  - destruct p as [inv r isf me ops us]. cbn [ap_path].
+    destruct ops; [constructor|apply ap_dedup_nodup].
+  - destruct l as [inv isf t xs us]. cbn [ap_logop]. apply ap_dedup_nodup.
+Qed.
+
+(** no returned path is empty *)
+Theorem C20_addressed_nonempty : forall t p, In p (addressed_paths t) -> p <> [].
+Proof.
+  intros [q|l] p H; simpl in H.
+  - destruct q as [inv r isf me ops us]. cbn [ap_path] in H.
+    destruct ops; [contradiction|]. apply ap_dedup_sub in H. apply H.
+  - destruct l as [inv isf t xs us]. cbn [ap_logop] in H. apply ap_dedup_sub in H. apply H.
+Qed.
+
+(** the own chain of a top-level path is one of the chains, and so is covered *)
+Lemma chains_own inv r isf me ops us :
+  In (idents_of ops) (chains (TopP (Path inv r isf me ops us))).
+Proof. left. reflexivity. Qed.
+
+(** ** the parser produces [parser_shaped] trees *)
+Lemma path_loop_is_filter : forall k root isf me ops us cur rest c r p,
+  path_loop k root isf me ops us cur rest = Ok (c, r, p) -> path_is_filter p = isf.
+Proof.
+  induction k as [|k IH]; intros root isf me ops us cur rest c r p H; [discriminate|].
+  cbn [path_loop] in H.
+  destruct cur as [t| |]; [|inversion H; reflexivity|discriminate].
+  destruct (is_ch t 46).
+  { destruct (scan rest) as [c0 r0]. eapply IH; exact H. }
+  destruct (is_ch t 44 || is_ch t 41 || is_ch t 93 || is_ch t 125).
+  { inversion H; reflexivity. }
+  destruct (is_ident_tok t).
+  { destruct (tnext t =? 40).
+    - destruct (parse_func k (CTok t) rest) as [[[c1 r1] f]|e|m| |w]; cbn [bind] in H; try discriminate.
+      eapply IH; exact H.
+    - destruct (strip_qmark (ttext t)) as [name q]. destruct (scan rest) as [c0 r0]. eapply IH; exact H. }
+  destruct (is_ch t 91); [|discriminate].
+  destruct (parse_log k true (CTok t) rest) as [[[c1 r1] l]|e|m| |w]; cbn [bind] in H; try discriminate.
+  eapply IH; exact H.
+Qed.
+
+Lemma parse_path_is_filter : forall k isf me cur rest c r p,
+  parse_path k isf me cur rest = Ok (c, r, p) -> path_is_filter p = isf.
+Proof.
+  intros [|k] isf me cur rest c r p H; [discriminate|].
+  cbn [parse_path] in H.
+  destruct cur as [t| |]; try discriminate.
+  destruct (is_ch t 36).
+  { destruct isf; [discriminate|]. destruct (scan rest) as [c0 r0].
+    eapply path_loop_is_filter; exact H. }
+  destruct (is_ch t 64); [|discriminate].
+  destruct (scan rest) as [c0 r0]. eapply path_loop_is_filter; exact H.
+Qed.
+
+Lemma log_shaped : forall k,
+  (forall cur rest c r l, parse_log k false cur rest = Ok (c, r, l) -> ps_logop l = true)
+  /\ (forall inv ty xs us cur rest c r l,
+        log_loop k inv false ty xs us cur rest = Ok (c, r, l) ->
+        forallb ps_operand xs = true -> ps_logop l = true).
+Proof.
+  induction k as [|k [IHp IHl]]; [split; intros; discriminate|].
+  split.
+  - intros cur rest c r l H. cbn [parse_log] in H.
+    destruct cur as [t| |]; try discriminate.
+    destruct (negb (is_ch t 123 || is_ch t 91)); [discriminate|].
+    destruct (scan rest) as [c0 r0].
+    destruct c0 as [t1| |]; try (eapply IHl; [exact H|reflexivity]).
+    destruct (is_ident_tok t1); [|eapply IHl; [exact H|reflexivity]].
+    destruct (scan r0) as [c' r']. eapply IHl; [exact H|reflexivity].
+  - intros inv ty xs us cur rest c r l H Hxs. cbn [log_loop] in H.
+    destruct cur as [t| |]; [|inversion H; subst; exact Hxs|discriminate].
+    destruct (is_ch t 44).
+    { destruct (scan rest) as [c0 r0]. eapply IHl; [exact H|exact Hxs]. }
+    destruct (is_ch t 36 || is_ch t 64).
+    { destruct (parse_path k false true (CTok t) rest) as [[[c1 r1] p]|e|m| |w] eqn:E; cbn [bind] in H; try discriminate.
+      eapply IHl; [exact H|]. rewrite forallb_app, Hxs. simpl.
+      rewrite (parse_path_is_filter _ _ _ _ _ _ _ _ E). reflexivity. }
+    destruct (is_ch t 123).
+    { destruct (parse_log k false (CTok t) rest) as [[[c1 r1] l1]|e|m| |w] eqn:E; cbn [bind] in H; try discriminate.
+      eapply IHl; [exact H|]. rewrite forallb_app, Hxs. simpl.
+      rewrite (IHp _ _ _ _ _ E). reflexivity. }
+    destruct (is_ch t 125 || is_ch t 93); [|discriminate].
+    destruct (scan rest) as [c0 r0]. inversion H; subst. exact Hxs.
+Qed.
+
+Lemma top_loop_shaped : forall k topop cur rest t,
+  top_loop k topop cur rest = Ok t ->
+  (forall t0, topop = Some t0 -> parser_shaped t0 = true) -> parser_shaped t = true.
+Proof.
+  induction k as [|k IH]; intros topop cur rest t H Ht; [discriminate|].
+  cbn [top_loop] in H.
+  destruct cur as [tk| |].
+  - destruct (is_ch tk 123).
+    { destruct topop; [discriminate|].
+      destruct (parse_log k false (CTok tk) rest) as [[[c1 r1] l]|e|m| |w] eqn:E; cbn [bind] in H; try discriminate.
+      eapply IH; [exact H|]. intros t0 Ht0. inversion Ht0; subst. simpl.
+      destruct (log_shaped k) as [Hp _]. eapply Hp; exact E. }
+    destruct (is_ch tk 64 || is_ch tk 36); [|discriminate].
+    destruct topop; [discriminate|].
+    destruct (parse_path k false false (CTok tk) rest) as [[[c1 r1] p]|e|m| |w] eqn:E; cbn [bind] in H; try discriminate.
+    eapply IH; [exact H|]. intros t0 Ht0. inversion Ht0; subst. simpl.
+    rewrite (parse_path_is_filter _ _ _ _ _ _ _ _ E). reflexivity.
+  - destruct topop; [|discriminate]. inversion H; subst. apply Ht. reflexivity.
+  - destruct topop; [|discriminate]. inversion H; subst. apply Ht. reflexivity.
+Qed.
+
+Theorem parse_string_shaped : forall uni s t, parse_string uni s = Ok t -> parser_shaped t = true.
+Proof.
+  intros uni s t H. unfold parse_string in H.
+  destruct (lex uni s) as [toks|]; [|discriminate].
+  unfold parse_tokens in H. destruct (scan toks) as [c r].
+  eapply top_loop_shaped; [exact H|]. intros t0 Ht0. discriminate.
+Qed.
+
+(** for a parsed query the premise on the flags is enough *)
+Corollary C20_root_fields_sound_parsed : forall uni0 s uni eng fuel t d d',
+  parse_string uni0 s = Ok t ->
+  begins_with_key_flags t = true ->
+  agree (root_fields t) d d' ->
+  eval uni eng fuel (NTop t) d d = eval uni eng fuel (NTop t) d' d'.
+Proof.
+  intros uni0 s uni eng fuel t d d' Hp Hb Hag.
+  apply C20_root_fields_sound_flags; [exact Hb|eapply parse_string_shaped; exact Hp|exact Hag].
+Qed.
+
+(** ** the output depends only on the set of inserted names
+    (the Go code sorts the set of every recursive call before inserting it into
+    the caller's set; the model concatenates and sorts once) *)
+
+Lemma sorted_strong (l : list str) : sorted l -> StronglySorted str_lt l.
+Proof.
+  intros Hs. apply Sorted_StronglySorted.
+  - intros a b c Hab Hbc. eapply c20_str_ltb_trans; eauto.
+  - apply Sorted_LocallySorted_iff. exact Hs.
+Qed.
+
+Lemma strong_sorted_unique (l l' : list str) :
+  StronglySorted str_lt l -> StronglySorted str_lt l' ->
+  (forall k, In k l <-> In k l') -> l = l'.
+Proof.
+  intros Hs; revert l'; induction Hs as [|a l1 Hs1 IH Ha]; intros l' Hs' Hiff.
+  - destruct l' as [|b l2]; [reflexivity|]. exfalso. apply (Hiff b). left. reflexivity.
+  - destruct Hs' as [|b l2 Hs2 Hb].
+    + exfalso. apply (Hiff a). left. reflexivity.
+    + rewrite Forall_forall in Ha, Hb.
+      assert (Hab : a = b).
+      { destruct (proj1 (Hiff a) (or_introl eq_refl)) as [Heq|Hin]; [congruence|].
+        destruct (proj2 (Hiff b) (or_introl eq_refl)) as [Heq|Hin']; [congruence|].
+        pose proof (Hb a Hin) as H1. pose proof (Ha b Hin') as H2.
+        unfold str_lt in *. rewrite (c20_str_ltb_asym _ _ H1) in H2. discriminate. }
+      subst b. f_equal. apply IH; [exact Hs2|].
+      intros k. split; intros Hk.
+      * destruct (proj1 (Hiff k) (or_intror Hk)) as [Heq|Hin]; [|exact Hin].
+        subst k. pose proof (Ha a Hk) as H. unfold str_lt in H. rewrite c20_str_ltb_irrefl in H. discriminate.
+      * destruct (proj2 (Hiff k) (or_intror Hk)) as [Heq|Hin]; [|exact Hin].
+        subst k. pose proof (Hb a Hk) as H. unfold str_lt in H. rewrite c20_str_ltb_irrefl in H. discriminate.
+Qed.
+
+Lemma sort_dedup_ext (l l' : list str) :
+  (forall k, In k l <-> In k l') -> sort_dedup l = sort_dedup l'.
+Proof.
+  intros H. apply strong_sorted_unique; try (apply sorted_strong; apply sort_dedup_sorted).
+  intros k. rewrite !sort_dedup_in. apply H.
+Qed.
+
+(** sorting a child's contribution first, as the recursive call does, changes nothing *)
+Lemma sort_dedup_inner (a b c : list str) :
+  sort_dedup (a ++ sort_dedup b ++ c) = sort_dedup (a ++ b ++ c).
+Proof.
+  apply sort_dedup_ext. intros k. rewrite !in_app_iff, sort_dedup_in. tauto.
+Qed.
+
+(** * (d) examples *)
+
+Definition on_parsed {A} (f : top -> A) (s : string) : option A :=
+  match parse_string uni_ascii (bs s) with Ok t => Some (f t) | _ => None end.
+
+Definition q1 : string := "$.a.b[@.x.Equal(1),@.y.Equal(2)].c.Sum($.d.e)".
+Definition q2 : string := "{OR,$.a.Equal({$.b.Equal(1)}),$.A.IsNull()}".
+
+Example ex_q1_root_fields : on_parsed root_fields q1 = Some [bs "a"; bs "d"].
+Proof. vm_compute. reflexivity. Qed.
+
+Example ex_q1_addressed :
+  on_parsed addressed_paths q1
+  = Some [[bs "a"; bs "b"; bs "x"]; [bs "a"; bs "b"; bs "y"]; [bs "d"; bs "e"]; [bs "a"; bs "b"; bs "c"]].
+Proof. vm_compute. reflexivity. Qed.
+
+Example ex_q1_premise :
+  on_parsed (fun t => (begins_with_key_b t, begins_with_key_flags t, parser_shaped t)) q1
+  = Some (true, true, true).
+Proof. vm_compute. reflexivity. Qed.
+
+(** the list is not case-folded although key lookup is: both spellings appear *)
+Example ex_q2_root_fields : on_parsed root_fields q2 = Some [bs "A"; bs "a"; bs "b"].
+Proof. vm_compute. reflexivity. Qed.
+
+Example ex_q2_addressed : on_parsed addressed_paths q2 = Some [[bs "b"]; [bs "a"]; [bs "A"]].
+Proof. vm_compute. reflexivity. Qed.
+
+Example ex_q2_premise :
+  on_parsed (fun t => (begins_with_key_b t, begins_with_key_flags t, parser_shaped t)) q2
+  = Some (true, true, true).
+Proof. vm_compute. reflexivity. Qed.
+
+(** an `@` path in a function argument inside a filter carries IsFilter = false:
+    its first key is listed although it is a key of the elements, not of the root *)
+Example ex_over_approximation :
+  on_parsed root_fields "$.a[@.x.Equal(@.y)]" = Some [bs "a"; bs "y"].
+Proof. vm_compute. reflexivity. Qed.
+
+(** a path that does not begin with a key: the first key after the filter is
+    listed, the key the filter reads is not *)
+Example ex_filter_first :
+  on_parsed (fun t => (root_fields t, begins_with_key_b t)) "$[@.x.Equal(1)].b" = Some ([bs "b"], false).
+Proof. vm_compute. reflexivity. Qed.
+
+(** ... and without the premise the list is not a sound summary: the query
+    reads the root field x, the list is empty *)
+Definition ex_num (z : Z) : gv := VFloat false false (FFin (mkDec z 0)).
+Definition ex_obj (kvs : list (string * gv)) : gv :=
+  VMap KtStr EAny false (map (fun '(k, v) => (VStr false (bs k), v)) kvs).
+
+Example ex_premise_needed :
+  on_parsed (fun t => (root_fields t,
+                       eval uni_ascii no_engines 64 (NTop t) (ex_obj [("x", ex_num 1)]) (ex_obj [("x", ex_num 1)]),
+                       eval uni_ascii no_engines 64 (NTop t) (ex_obj [("x", ex_num 2)]) (ex_obj [("x", ex_num 2)])))
+            "$[@.x.Equal(1)]"
+  = Some ([], Ok (ex_obj [("x", ex_num 1)]), Ok VNil).
+Proof. vm_compute. reflexivity. Qed.
+
+(** a `$` chain inside a filter predicate is prefixed by the collection too *)
+Example ex_dollar_in_filter :
+  on_parsed addressed_paths "$.a[@.x.Equal($.d)]" = Some [[bs "a"; bs "d"]; [bs "a"; bs "x"]].
+Proof. vm_compute. reflexivity. Qed.
+
+(** the order of arrival matters: a prefix that comes first stays *)
+Example ex_prefix_first :
+  on_parsed addressed_paths "{AND,$.a.IsNull(),$.a.b.IsNull()}" = Some [[bs "a"]; [bs "a"; bs "b"]].
+Proof. vm_compute. reflexivity. Qed.
+
+Example ex_prefix_second :
+  on_parsed addressed_paths "{AND,$.a.b.IsNull(),$.a.IsNull()}" = Some [[bs "a"; bs "b"]].
+Proof. vm_compute. reflexivity. Qed.
+
+(** the theorem at work: q1 does not see the root field z *)
+Example ex_q1_ignores_z : forall uni eng fuel t rest v v',
+  parse_string uni_ascii (bs q1) = Ok t ->
+  let d := VMap KtStr EAny false (rest ++ [(VStr false (bs "z"), v)]) in
+  let d' := VMap KtStr EAny false (rest ++ [(VStr false (bs "z"), v')]) in
+  eval uni eng fuel (NTop t) d d = eval uni eng fuel (NTop t) d' d'.
+Proof.
+  intros uni eng fuel t rest v v' Hp. cbn zeta.
+  assert (Hrf : root_fields t = [bs "a"; bs "d"]).
+  { pose proof ex_q1_root_fields as H. unfold on_parsed in H. rewrite Hp in H. congruence. }
+  assert (Hb : begins_with_key_flags t = true).
+  { pose proof ex_q1_premise as H. unfold on_parsed in H. rewrite Hp in H. congruence. }
+  eapply C20_root_fields_sound_parsed; [exact Hp|exact Hb|].
+  rewrite Hrf. apply agree_map_replace;
+    intros s k Hs Hin; simpl in Hs; inversion Hs; subst;
+    destruct Hin as [<-|[<-|[]]]; reflexivity.
+Qed.
+
+Print Assumptions C20_root_fields_sorted_nodup.
+Print Assumptions C20_root_fields_nodup.
+Print Assumptions C20_root_fields_sound.
+Print Assumptions C20_root_fields_sound_flags.
+Print Assumptions C20_root_fields_sound_parsed.
+Print Assumptions C20_root_fields_sound_do_top.
+Print Assumptions C20_root_fields_map_entry.
+Print Assumptions C20_addressed_cover.
+Print Assumptions C20_addressed_exact.
+Print Assumptions C20_addressed_nodup.
+Print Assumptions C20_addressed_nonempty.
